@@ -11,6 +11,7 @@ import (
 
 	"github.com/google/uuid"
 	"github.com/semafind/semadb/cluster"
+	"github.com/semafind/semadb/cluster/mrpc"
 	"github.com/semafind/semadb/models"
 	"pgregory.net/rapid"
 	"verif/drive"
@@ -25,9 +26,12 @@ func TestMain(m *testing.M) {
 
 // Step of a multi-shard history.
 type Step struct {
-	Kind   string        `json:"kind"` // insert | update | delete | search
-	Via    int           `json:"via"`  // entry node
-	Down   int           `json:"down"` // -1, or the node that is unavailable during this request (never the entry node)
+	Kind string `json:"kind"` // insert | update | delete | search
+	Via  int    `json:"via"`  // entry node
+	Down int    `json:"down"` // -1, or the node that is unavailable during this request (never the entry node)
+	// Hang: the Down node is not unreachable but hung: it accepts the requests and does not answer within
+	// the RPC timeout (only in cases with a 1 s timeout)
+	Hang   bool          `json:"hang,omitempty"`
 	Points []model.Point `json:"points,omitempty"`
 	Ids    []uuid.UUID   `json:"ids,omitempty"`
 	Search *SearchSpec   `json:"search,omitempty"`
@@ -49,6 +53,8 @@ type SearchSpec struct {
 }
 
 type Case struct {
+	// HangCase: the nodes run with an RPC timeout of one second and "down" steps may be hung peers
+	HangCase           bool   `json:"hangCase,omitempty"`
 	Nodes              int    `json:"nodes"`
 	MaxShardPointCount int64  `json:"maxShardPointCount"`
 	Steps              []Step `json:"steps"`
@@ -86,6 +92,8 @@ func genDoc(t *rapid.T, label string) model.Doc {
 
 func genCase(t *rapid.T) Case {
 	c := Case{Nodes: rapid.IntRange(1, 3).Draw(t, "nodes"), MaxShardPointCount: int64(rapid.IntRange(2, 5).Draw(t, "mspc"))}
+	c.HangCase = c.Nodes > 1 && rapid.IntRange(0, 11).Draw(t, "hangCase") == 0
+	hangsLeft := 2
 	pool := poolIds(24)
 	stored := map[uuid.UUID]bool{}
 	n := rapid.IntRange(2, 10).Draw(t, "nsteps")
@@ -177,6 +185,10 @@ func genCase(t *rapid.T) Case {
 		}
 		if c.Nodes > 1 && st.Kind != "insert" && rapid.IntRange(0, 3).Draw(t, fmt.Sprintf("down%d", i)) == 0 {
 			st.Down = (st.Via + 1 + rapid.IntRange(0, c.Nodes-2).Draw(t, fmt.Sprintf("downn%d", i))) % c.Nodes
+			if c.HangCase && hangsLeft > 0 && (st.Kind == "update" || st.Kind == "delete") {
+				st.Hang = true
+				hangsLeft--
+			}
 		}
 		if st.Kind == "delete" && st.Down < 0 {
 			// ids deleted while a server was unavailable may survive: they are never inserted again
@@ -258,6 +270,11 @@ func execCase(c Case) (res vt.Result) {
 		e.servers = append(e.servers, e.specs[k].Name())
 	}
 	nodeOpts := drive.ClusterOpts{MaxShardPointCount: c.MaxShardPointCount, ShardTimeout: 2, RpcTimeout: 5, RpcRetries: 1}
+	if c.HangCase {
+		nodeOpts.RpcTimeout = 1
+	}
+	hangRelease := make(chan struct{})
+	defer close(hangRelease)
 	// every node lists the servers in an order of its own (itself first), as separately written
 	// configurations do: routing must not depend on it
 	serversOf := func(k int) []string {
@@ -272,6 +289,7 @@ func execCase(c Case) (res vt.Result) {
 	}
 	defer func() {
 		cluster.VerifFaultFn.Store(nil)
+		mrpc.VerifRequestFn.Store(nil)
 		for _, n := range e.nodes {
 			n.Close()
 		}
@@ -312,7 +330,17 @@ func execCase(c Case) (res vt.Result) {
 			return fail("locating points: %v", err)
 		}
 		downServer := ""
-		if st.Down >= 0 {
+		stopHang := func() {}
+		if st.Down >= 0 && st.Hang && c.HangCase {
+			// a hung peer: its requests are held unanswered; afterwards its connections are reset (the held
+			// requests are never executed) and the other nodes reconnect
+			downServer = e.servers[st.Down]
+			end := drive.HangServer(e.specs[st.Down], hangRelease)
+			spec := e.specs[st.Down]
+			stopHang = func() { end(); drive.DropServerConns(spec) }
+			faults++
+			rec.Count("steps_with_a_hung_peer", 1)
+		} else if st.Down >= 0 {
 			downServer = e.servers[st.Down]
 			ds := downServer
 			fn := func(point string, _ int) error {
@@ -473,6 +501,7 @@ func execCase(c Case) (res vt.Result) {
 			}
 		}
 		cluster.VerifFaultFn.Store(nil)
+		stopHang()
 		// every stored point is found exactly once, with its document, through every node
 		for via := range e.nodes {
 			w2, _, err := e.locate(via, pool)
